@@ -13,10 +13,11 @@ proved to be the only ones (C13_injective_outside_known) are classified by known
   id-none-name    equal source text, different source value (decoded dtn name "none" vs the none endpoint)"""
 import re
 import genb
-from vlib import rnd_u64, U64
+from vlib import rnd_u64, U64, xhex
 
 THEOREMS = ["C13_depends_only_on_ident", "C13_injective_outside_known", "C13_iff_outside_known", "C13_refuted", "C13_fragment_collides",
             "C13_known_none_name_narrow", "C13_refbundle"]
+RELEASE = True          # debug and release builds of the harness (debug_assert!, overflow checks, cfg(debug_assertions))
 RULE = ("IDPAIR: (a) adversarial re-splittings of one ID text 'T-n1-n2[-n3]' into (source, time, seq[, offset]) at every dash, sources "
         "and services containing '-' and digits, numeric fields that are prefixes/suffixes of one another, fragment vs non-fragment, "
         "dtn / ipn / none sources and decoder-image dtn names; (b) single-field perturbations: every field outside the identity "
@@ -184,6 +185,12 @@ WITNESS_NONE = "IDPAIR %s | %s" % (genb.show_bundle(W3), genb.show_bundle(W4))
 def corpus():
     out = [pair_line(W1, W2), pair_line(W2, W1), pair_line(W3, W4), pair_line(W1, W1), pair_line(W2, W2)]
     out.append(pair_line(mk(("DTN", 1, b"//n/a-5"), 1, 2), mk(("DTN", 1, b"//n/a"), 5, 1)))            # both non-fragments: no collision
+    # received status reports about fragments: offset and length differ, offset 0 (first fragment), equal values
+    import vlib
+    r0 = vlib.Rng(131313)
+    for off, flen in ((0, 10), (3, 10), (10, 3), (7, 7), (0, 0), (0, 1), (U64 - 1, 1), (1, U64 - 1)):
+        out.append(srref_line(r0, ("DTN", 1, b"//n/a"), 5, 1, off, flen))
+        out.append(srref_line(r0, ("IPN", 2, 23, 42), 1000, 0, off, flen))
     # long source texts that agree on a long prefix (250..300 characters) and differ only behind it: the whole source is part of the ID
     for L in (20, 240, 247, 248, 249, 250, 256, 300, 1000):
         a, c = ("DTN", 1, b"//" + b"n" * L + b"/a"), ("DTN", 1, b"//" + b"n" * L + b"/c")
@@ -202,9 +209,32 @@ def corpus():
     return out
 
 
+_SR = {}
+
+
+def srref_line(rng, src=None, t=None, q=None, off=None, flen=None):
+    """a status report as a peer puts it on the wire (Python reference encoding) about the bundle (src, t, q[, fragment off of flen])"""
+    from props import c12
+    src = src if src is not None else rnd_src(rng)
+    t = t if t is not None else rnd_num(rng)
+    q = q if q is not None else rnd_num(rng)
+    if off is None:
+        if rng.random() < 0.7:
+            off, flen = rng.choice([0, 0, 1, 7, rnd_num(rng)]), rng.choice([1, 1, 10, rnd_num(rng) or 1])
+        else:
+            off, flen = 0, 0
+    items = [(i == rng.randrange(4), 0, False) for i in range(4)]
+    rec = ("SR", items, rng.choice([0, 1, 5]), src, t, q, off, flen)
+    l = "SRREF " + xhex(c12.ref_record(rec))
+    _SR[l] = (src, t, q, off, flen)
+    return l
+
+
 def cases(rng, tier):
     scale = 1 if tier == "quick" else 40
     out = []
+    for _ in range(1500 * scale):                          # received status reports: which bundle do they refer to
+        out.append(srref_line(rng))
     for _ in range(700 * scale):
         out += resplit_pairs(rng)
     for _ in range(3000 * scale):                          # collisions of the known class and their near misses
@@ -261,6 +291,15 @@ def oracle(line, out, mode):
             return "two bundles with different (source, timestamp, fragment offset) have the same ID %s" % bytes.fromhex(o[1][1:]).decode("utf-8", "replace")
         if same_ident and not same_id:
             return "the ID depends on something besides source, creation timestamp and fragment offset"
+        return None
+    if cmd == "SRREF":
+        if line not in _SR:
+            return None
+        src, t, q, off, flen = _SR[line]
+        want = eid_text(src) + b"-%d-%d" % (t, q) + (b"-%d" % off if flen > 0 else b"")
+        if out != "OK " + xhex(want):
+            got = bytes.fromhex(o[1][1:]).decode("utf-8", "replace") if len(o) > 1 and o[1].startswith("x") else out[:40]
+            return "a received status report about %s refers to %s" % (want.decode("utf-8", "replace"), got)
         return None
     if cmd == "ID":
         return None if o[0] == "OK" else "Bundle::id / to_string does not return normally: %s" % out[:30]
